@@ -178,7 +178,11 @@ def account(prop, tier, want_tags, expl, level, extra_note=''):
                            'obligation': f['property'], 'description': f['description'], 'location': f.get('location'),
                            'emitted_file': os.path.join(wd, base + '.c')}
                 reproduced, text = False, ''
-                if key == 'T':
+                if key == 'T' and f['description'].startswith('C04.compile'):
+                    q = subprocess.run(['cc', '-fsyntax-only', '-pedantic-errors', '-w', os.path.join(wd, base + '.c')], capture_output=True, text=True, errors='replace')
+                    reproduced = q.returncode != 0
+                    text = 'native: cc -fsyntax-only -pedantic-errors %s -> rc=%s %s' % (os.path.join(wd, base + '.c'), q.returncode, (q.stderr or '').strip().splitlines()[:1])
+                elif key == 'T':
                     row, col = scalar(tr, 'wit_row'), scalar(tr, 'wit_col2')
                     payload.update(row=row, col=col)
                     reproduced = True  # closed obligation over constants: the emitted row IS the failing input
